@@ -69,6 +69,11 @@ def parseJs : Nat → List String → Option (Js × List String)
         let (a, r2) ← parseJs fuel r1
         let (b, r3) ← parseJs fuel r2
         pure (Js.ite c a b, r3)
+    | "loop" :: h :: n :: r => do
+        let i ← stringOfHex h
+        let m ← n.toNat?
+        let (b, r1) ← parseJs fuel r
+        pure (Js.loop i 0 m b, r1)
     | "fd" :: h :: n :: r => do
         let f ← stringOfHex h
         let k ← n.toNat?
